@@ -36,6 +36,8 @@ def run(index, rep):
     rep.guard(purity, food, rep)
     rep.guard(guards, food, rep)
     rep.guard(predicates, food, rep)
+    from .lanes import lane_rule
+    rep.guard(lane_rule, index, rep, "C11.ARGLANE", ("kcals", "fat", "protein"), 500, "nutrient lanes crossed at a call")
 
 
 # =============================================================================== C11.TS
